@@ -1,4 +1,5 @@
 pub mod alias;
+pub mod descs;
 pub mod gather;
 pub mod hist;
 pub mod registry;
